@@ -26,16 +26,16 @@ def crc(s):
 def universe(wd):
     r = common.run_tlc("Types.tla", os.path.join(common.SPEC, "Types.cfg"), os.path.join(wd, "tlc"), workers=1, timeout=900)
     common.tlc_must(r, "Types")
-    u = {"triple": [], "slot": {}, "wrapper": [], "bind": [], "name": [], "arity": [], "opval": [], "prelude": None, "syntax": None}
+    u = {"triple": [], "slot": {}, "wrapper": [], "bind": [], "name": [], "arity": [], "opval": [], "shadow": [], "prelude": None, "syntax": None}
     for rec in r.records:
-        k = rec["k"]
+        k = rec.get("kk") or rec["k"]
         if k == "slot":
             u["slot"][rec["s"]] = rec
         elif k in ("prelude", "syntax"):
             u[k] = rec
         else:
             u[k].append(rec)
-    for k in ("triple", "bind", "name", "arity", "opval"):
+    for k in ("triple", "bind", "name", "arity", "opval", "shadow"):
         u[k].sort(key=lambda x: json.dumps(x, sort_keys=True))
     u["wrapper"].sort(key=lambda x: x["w"])
     if not u["prelude"] or not u["triple"] or not u["bind"]:
@@ -92,6 +92,15 @@ def statements(u):
     for n in u["name"]:
         ok.append(Stmt("", n["pre"], n["ok"], n["post"], "name slot=%s" % n["s"]))
         bad.append(Stmt("", n["pre"], n["bad"], n["post"], "name slot=%s" % n["s"], fault="undefined-" + n["s"].split(":")[0]))
+    for sc in u["shadow"]:
+        sub = lambda x: x.replace("@I", sc["inner"]).replace("@F", sc["field"]).replace("@L", sc["innerlit"])
+        st = Stmt("defvar sh%% = %s;" % sc["outerlit"], sub(sc["pre"]), "sh%", sub(sc["post"]),
+                  "shadow inner=%s outer=%s:%s inner-type=%s field=%s" % (sc["k"], "defvar", sc["outer"], sc["inner"], sc["field"]))
+        if sc["c"] == "yes":
+            ok.append(st)
+        elif sc["c"] == "no":
+            st.fault = "incompatible-type"
+            bad.append(st)
     for o in u["opval"]:
         ok.append(Stmt("", "defvar X% = ", o["txt"], ";", "operator %s text=%s" % (o["vk"], o["txt"].replace(" ", ""))))
     for a in u["arity"]:
